@@ -194,31 +194,27 @@ def run(chk, repo):
     chk.ob('C11.e', 'strand symbols agree (+ <-> 1, - <-> -1)', wr.where, ok, f"writer {wsyms}, reader {rmap}", key='gtf.GtfIO::strand-symbols')
     # is_protein_coding: the writer emits the text the model reader compares with ('true'), under the attribute name the GTF reader keeps
     from sa import sem as _se
-    wchains = _se.block_chains(wr.node)
-    wparam = 'is_protein_coding'
-    ok = False
-    wdetail = 'no `is_protein_coding <value>;` attribute is written'
-    for st in ast.walk(wr.node):
-        if not (isinstance(st, ast.stmt) and _se.own_stmt(st)):
-            continue
-        for js in [x for x in ast.walk(st) if isinstance(x, ast.JoinedStr)]:
-            vals = js.values
-            for k in range(len(vals) - 1):
-                if isinstance(vals[k], ast.Constant) and str(vals[k].value).rstrip().endswith('is_protein_coding') and isinstance(vals[k + 1], ast.FormattedValue):
-                    tail = vals[k + 2].value if k + 2 < len(vals) and isinstance(vals[k + 2], ast.Constant) else ''
-                    v = _se.expand_names(wr.node, st, vals[k + 1].value, chains=wchains)
-                    wdetail = f"is_protein_coding is written as `{unparse(v)}`"
-                    if isinstance(v, ast.IfExp) and isinstance(v.body, ast.Constant) and isinstance(v.orelse, ast.Constant) and str(tail).startswith(';'):
-                        pos = {_se.lit(f'{wparam} is True'), _se.lit(f'{wparam} == True'), _se.lit(wparam)}
-                        neg = {_se.lit(f'{wparam} is False'), _se.lit(f'{wparam} is not True'), _se.lit(f'{wparam} != True'), _se.lit(wparam, False),
-                               _se.lit(f'{wparam} is True', False)}
-                        c = _se.conj_literals(v.test)
-                        if c and len(c) == 1:
-                            l = next(iter(c))
-                            if l in pos:
-                                ok = (v.body.value, v.orelse.value) == ('true', 'false')
-                            elif l in neg:
-                                ok = (v.body.value, v.orelse.value) == ('false', 'true')
+    from sa.peval import PEval as _PE, Tmpl as _Tm, show as _psh
+    # E9: the line to_gtf_record returns for is_protein_coding = True / False / None, on every outcome
+    ok = True
+    wdetail = ''
+    for flag, want in ((True, ' is_protein_coding true;'), (False, ' is_protein_coding false;'), (None, None)):
+        try:
+            wo = [o for o in _PE(split_unknown=True).run(wr.node, {'is_protein_coding': flag}) if o.kind == 'return']
+        except (ValueError, OverflowError):
+            wo = []
+        if not wo or not all(isinstance(o.value, _Tm) for o in wo):
+            chk.undecided('C11.e', 'GTF writer', wr.where, 'to_gtf_record does not evaluate to string templates')
+            ok = False
+            break
+        for o in wo:
+            last = o.value.split('\t')[-1]
+            consts = ''.join(x for x in last.parts if isinstance(x, str))
+            good = (want is None and 'is_protein_coding' not in _psh(last)) or \
+                (want is not None and consts.count('is_protein_coding') == 1 and isinstance(last.parts[-1], str) and last.parts[-1].endswith(want))
+            if not good and ok:
+                ok = False
+                wdetail = f"with is_protein_coding={flag} the attribute column is `{_psh(last)[-80:]}`"
     # the model reader compares the kept attribute with 'true'
     tam = repo.func('gtf.TranscriptAnnotationModel:TranscriptAnnotationModel.add_transcript_record') if 'gtf.TranscriptAnnotationModel:TranscriptAnnotationModel.add_transcript_record' in repo.functions else None
     # the reader's keep-set: the collection the attribute keys are tested against
